@@ -11,11 +11,13 @@ class Layout:
     def __init__(self, crate):
         self.structs = {}   # 'module::Name' and 'Name' (if unique) -> [field names]
         self.enums = {}     # likewise -> [variant names]
-        self._scan(os.path.join(REPO, crate, 'src'))
+        crates = [crate] if isinstance(crate, str) else list(crate)
+        self._scan([os.path.join(REPO, c, 'src') for c in crates])
 
-    def _scan(self, root):
+    def _scan(self, roots):
         names_s, names_e = {}, {}
-        for path in glob.glob(os.path.join(root, '**', '*.rs'), recursive=True):
+        paths = [p for root in roots for p in glob.glob(os.path.join(root, '**', '*.rs'), recursive=True)]
+        for path in paths:
             module = os.path.splitext(os.path.basename(path))[0]
             parent = os.path.basename(os.path.dirname(path))
             if module == 'mod':
